@@ -86,6 +86,70 @@ def init_key(vc):
 
 
 # ---------------------------------------------------------------------------------------
+# read_file: the object handed back carries the key that the blocks unwrapped to (no new draw), so a later write wraps the
+# SAME key as the blocks that were kept byte for byte - and the body was authenticated/decrypted with that key.
+
+def fam_read(seed, tier):
+    import random
+    rnd = random.Random(seed)
+    for _ in range(4 if tier == "quick" else 30):
+        yield dict(sk=bytes(rnd.randrange(256) for _ in range(15)) + bytes([rnd.choice([0, 9])]),
+                   code=bytes(rnd.randrange(256) for _ in range(8)), version=rnd.randrange(256), have=True)
+
+
+@proof("C07/read_file.keeps-the-unwrapped-key", functions=[(MOD, "Bec2File.read_file"), (MOD, "Bec2File.__init__")],
+       family=fam_read)
+def read_keeps_key(vc):
+    M = vc.module(MOD)
+    B = vc.module("bec2format.bf3file")
+    sk = vc.bytes("sk", 16)
+    have = vc.bool("have")
+    draws = []
+    if vc.symbolic:
+        calls = []
+        vc.patch(M, "random_bytes", lambda n: (draws.append(n), vc.fresh_bytes("draw", n))[1])
+        blocks = [M.UnknownAuthBlock(3, b"kept-bytes"), M.UnknownAuthBlock(2, b"other")]
+        vc.patch(M.Bec2File, "unpack_auth_blocks",
+                 classmethod(lambda cls, rdr, encs: (list(blocks), sk if have else None)))
+        vc.patch(B.Bf3File, "from_binary",
+                 staticmethod(lambda rdr, comments=None, check=True, key=None: (calls.append(key), "BODY")[1]))
+        vc.patch(B.Bf3File, "parse_bf3_file", staticmethod(lambda x: (M.BytesReader(b"BEC2\0rest", "x"), {})))
+        out = vc.call(M.Bec2File.read_file, None, [], True)
+        if not have:
+            vc.prove("no-decryptable-block=>format-error", out.raised(M.Bec2FileFormatError), repr(out.exc))
+            return
+        vc.prove("returns", out.returned, repr(out.exc))
+        if out.returned:
+            g = out.value
+            vc.prove("object-keeps-the-unwrapped-key", g.session_key == sk)
+            vc.prove("no-new-key-drawn", len(draws) == 0)
+            vc.prove("body-read-under-the-unwrapped-key", len(calls) == 1 and calls[0] == sk)
+            kept = list(g.auth_blocks.values())
+            vc.prove("blocks-kept-in-order", len(kept) == 2 and kept[0] is blocks[0] and kept[1] is blocks[1])
+            vc.cover("read")
+        return
+    # concrete: partial read (update block opened, ECC block kept as unknown), rewrite, read by the ECC key holder
+    import io
+    import bec2format
+    vc.assume(have)
+    code, version = vc._get("code"), vc._get("version")
+    rcpt = bec2format.generate_private_ecc_key()
+    bf3 = B.Bf3File({"a": "b"}, [B.Bf3Component({0xC3: b"\x02"}, b"firmware-image")])
+    f = M.Bec2File(bf3, [M.InitEccAuthBlock(1), M.UpdateAuthBlock(code, version)], sk)
+    s = io.StringIO()
+    f.write_file(s, [M.EccEncryptor(1, rcpt.public_key), M.ConfigSecurityCodeEncryptor(code)])
+    g = M.Bec2File.read_file(io.StringIO(s.getvalue()), [M.ConfigSecurityCodeEncryptor(code)], True)
+    vc.prove("object-keeps-the-unwrapped-key", g.session_key == sk)
+    s2 = io.StringIO()
+    g.write_file(s2, [M.ConfigSecurityCodeEncryptor(code)])
+    out = vc.call(M.Bec2File.read_file, io.StringIO(s2.getvalue()), [M.EccDecryptor(1, rcpt)], True)
+    vc.prove("rewritten-file-opens-with-the-kept-block", out.returned and out.value.session_key == sk, repr(out.exc))
+    both = vc.call(M.Bec2File.read_file, io.StringIO(s2.getvalue()),
+                   [M.EccDecryptor(1, rcpt), M.ConfigSecurityCodeEncryptor(code)], True)
+    vc.prove("rewritten-file:all-blocks-wrap-the-same-key", both.returned and both.value.session_key == sk, repr(both.exc))
+
+
+# ---------------------------------------------------------------------------------------
 def fam_pack(seed, tier):
     import random
     rnd = random.Random(seed)
